@@ -25,6 +25,7 @@ import (
 	"reflect"
 
 	cbor "github.com/fxamacker/cbor/v2"
+	"github.com/veraison/eat"
 )
 
 var verifErrStub = errors.New("stub: codec error")
@@ -186,47 +187,98 @@ func (verifDM) DecOptions() cbor.DecOptions                              { retur
 
 // verifFillP1 / verifFillP2: what a struct decoder does with a map: a key that is present sets
 // its field, an absent key leaves the destination field untouched.
-// (verifPick keeps the branch inside a tiny function: the engine merges paths at function
-// return, so filling eleven fields costs eleven merges instead of 2^11 paths)
-func verifPick[T any](src, dst *T) *T {
-	if src != nil {
-		return src
+// verifCopyField: dst field := src field if the source field is set (typed at RUN time so
+// that the harness compiles whatever Go type the field has in the tree under check; the
+// branch lives in this tiny function: the engine merges paths at function return, so filling
+// eleven fields costs eleven merges instead of 2^11 paths)
+func verifCopyField(dst, src interface{}) {
+	switch d := dst.(type) {
+	case **string:
+		if s := src.(**string); *s != nil {
+			*d = *s
+		}
+	case *string:
+		if s := src.(*string); *s != "" {
+			*d = *s
+		}
+	case **int32:
+		if s := src.(**int32); *s != nil {
+			*d = *s
+		}
+	case **int64:
+		if s := src.(**int64); *s != nil {
+			*d = *s
+		}
+	case **uint16:
+		if s := src.(**uint16); *s != nil {
+			*d = *s
+		}
+	case **uint32:
+		if s := src.(**uint32); *s != nil {
+			*d = *s
+		}
+	case **uint:
+		if s := src.(**uint); *s != nil {
+			*d = *s
+		}
+	case **uint64:
+		if s := src.(**uint64); *s != nil {
+			*d = *s
+		}
+	case **[]byte:
+		if s := src.(**[]byte); *s != nil {
+			*d = *s
+		}
+	case *[]byte:
+		if s := src.(*[]byte); *s != nil {
+			*d = *s
+		}
+	case **eat.UEID:
+		if s := src.(**eat.UEID); *s != nil {
+			*d = *s
+		}
+	case **eat.Nonce:
+		if s := src.(**eat.Nonce); *s != nil {
+			*d = *s
+		}
+	case **eat.Profile:
+		if s := src.(**eat.Profile); *s != nil {
+			*d = *s
+		}
+	case *ISwComponents:
+		if s := src.(*ISwComponents); *s != nil {
+			*d = *s
+		}
+	default:
+		panic(verifAbort{"decoder stub: field type not handled"})
 	}
-	return dst
-}
-
-func verifPickSw(src, dst ISwComponents) ISwComponents {
-	if src != nil {
-		return src
-	}
-	return dst
 }
 
 func verifFillP1(p *p1Claims, src *P1Claims) {
-	p.Profile = verifPick(src.Profile, p.Profile)
-	p.ClientID = verifPick(src.ClientID, p.ClientID)
-	p.SecurityLifeCycle = verifPick(src.SecurityLifeCycle, p.SecurityLifeCycle)
-	p.ImplID = verifPick(src.ImplID, p.ImplID)
-	p.BootSeed = verifPick(src.BootSeed, p.BootSeed)
-	p.CertificationReference = verifPick(src.CertificationReference, p.CertificationReference)
-	p.SwComponents = verifPickSw(src.SwComponents, p.SwComponents)
-	p.NoSwMeasurements = verifPick(src.NoSwMeasurements, p.NoSwMeasurements)
-	p.Nonce = verifPick(src.Nonce, p.Nonce)
-	p.InstID = verifPick(src.InstID, p.InstID)
-	p.VSI = verifPick(src.VSI, p.VSI)
+	verifCopyField(&p.Profile, &src.Profile)
+	verifCopyField(&p.ClientID, &src.ClientID)
+	verifCopyField(&p.SecurityLifeCycle, &src.SecurityLifeCycle)
+	verifCopyField(&p.ImplID, &src.ImplID)
+	verifCopyField(&p.BootSeed, &src.BootSeed)
+	verifCopyField(&p.CertificationReference, &src.CertificationReference)
+	verifCopyField(&p.SwComponents, &src.SwComponents)
+	verifCopyField(&p.NoSwMeasurements, &src.NoSwMeasurements)
+	verifCopyField(&p.Nonce, &src.Nonce)
+	verifCopyField(&p.InstID, &src.InstID)
+	verifCopyField(&p.VSI, &src.VSI)
 }
 
 func verifFillP2(p *p2Claims, src *P2Claims) {
-	p.Profile = verifPick(src.Profile, p.Profile)
-	p.ClientID = verifPick(src.ClientID, p.ClientID)
-	p.SecurityLifeCycle = verifPick(src.SecurityLifeCycle, p.SecurityLifeCycle)
-	p.ImplID = verifPick(src.ImplID, p.ImplID)
-	p.BootSeed = verifPick(src.BootSeed, p.BootSeed)
-	p.CertificationReference = verifPick(src.CertificationReference, p.CertificationReference)
-	p.SwComponents = verifPickSw(src.SwComponents, p.SwComponents)
-	p.Nonce = verifPick(src.Nonce, p.Nonce)
-	p.InstID = verifPick(src.InstID, p.InstID)
-	p.VSI = verifPick(src.VSI, p.VSI)
+	verifCopyField(&p.Profile, &src.Profile)
+	verifCopyField(&p.ClientID, &src.ClientID)
+	verifCopyField(&p.SecurityLifeCycle, &src.SecurityLifeCycle)
+	verifCopyField(&p.ImplID, &src.ImplID)
+	verifCopyField(&p.BootSeed, &src.BootSeed)
+	verifCopyField(&p.CertificationReference, &src.CertificationReference)
+	verifCopyField(&p.SwComponents, &src.SwComponents)
+	verifCopyField(&p.Nonce, &src.Nonce)
+	verifCopyField(&p.InstID, &src.InstID)
+	verifCopyField(&p.VSI, &src.VSI)
 }
 
 // verifJSONMarshal is what the engine runs for encoding/json.Marshal.
